@@ -1,5 +1,6 @@
 """C07 - instrument-section lines are recognised and decoded exactly."""
 from vf.runner import Ob
+from .common import _sync_section, _two_maps, _e2e  # noqa: F401
 from .common import *  # noqa: F401,F403
 
 LEVEL = "other"
@@ -32,6 +33,8 @@ def obligations(tier):
                   bounds="3 sections x <=2 symbolic body lines of any length (blank lines included): this section's parser receives exactly its own body lines"))
     obs.append(Ob("C07.decode.E.digit-word", "CH", "harness.h_lines", "decode_line", 900, {"VF_KIND": 2, "VF_SYM": 1, "VF_MAXD": maxd},
                   funcs=(IN + "TrackEvent.ParsedData.from_chart_line",), bounds="a track event whose word is a symbolic digit string: stored verbatim as a string"))
+    obs.append(Ob("C07.e_word_forms", "CH", "harness.h_lines", "e_word_forms", 300, funcs=("chartparse.instrument.TrackEvent.ParsedData.from_chart_line", "chartparse.instrument.InstrumentTrack.from_chart_lines"),
+                  bounds="real recogniser and track parser on '<tick> = E <word>' with 14 unusual words (empty, quotes only, digits only, brackets, '=', ideographic space), with and without padding: decoded verbatim, rendered, no exception"))
     return obs
 
 
